@@ -13,6 +13,7 @@
 #include <set>
 #include <sys/mman.h>
 #include <sys/resource.h>
+#include <sys/time.h>
 #include <sys/wait.h>
 #include <unistd.h>
 
@@ -182,7 +183,7 @@ inline CrashInfo read_crash(const std::string& rundir, pid_t pid, int status, co
 	std::string txt = read_file(path);
 	unlink(path.c_str());
 	ci.text = txt.substr(0, 3000);
-	if (WIFSIGNALED(status) && WTERMSIG(status) == SIGALRM) ci.cls = "timeout";
+	if (WIFSIGNALED(status) && (WTERMSIG(status) == SIGALRM || WTERMSIG(status) == SIGPROF)) ci.cls = "timeout";
 	else if (WIFSIGNALED(status) && WTERMSIG(status) == SIGXCPU) ci.cls = "timeout";
 	if (!txt.empty()) {
 		std::istringstream is(txt);
@@ -392,6 +393,24 @@ inline void run_pool(size_t nunits, const PoolCfg& cfg, UnitFn fn, CrashFn on_cr
 	g_shared = nullptr;
 }
 
+// Watchdog that does not depend on machine load: the limit counts the CPU time of the process (a hang in a
+// single-threaded library burns CPU); a wall-clock alarm at eight times the limit is the backstop for a process
+// that blocks.  Both signals take the same handler (installed by the harness) or their default action (death).
+inline void watch_start(int seconds) {
+	if (seconds <= 0) return;
+	struct itimerval it;
+	memset(&it, 0, sizeof it);
+	it.it_value.tv_sec = seconds;
+	setitimer(ITIMER_PROF, &it, nullptr);
+	alarm((unsigned) seconds * 8);
+}
+inline void watch_stop() {
+	struct itimerval it;
+	memset(&it, 0, sizeof it);
+	setitimer(ITIMER_PROF, &it, nullptr);
+	alarm(0);
+}
+
 // Run one closure in a forked child with a watchdog; returns CrashInfo with cls=="" on clean exit 0.
 inline CrashInfo run_isolated(const std::string& rundir, const std::string& repo, int timeout_s, const std::function<int()>& body) {
 	fflush(stdout);
@@ -406,7 +425,7 @@ inline CrashInfo run_isolated(const std::string& rundir, const std::string& repo
 		g_shared = nullptr;
 		g_slot = -1;
 		g_stepslot = slot;
-		if (timeout_s > 0) alarm((unsigned) timeout_s);
+		watch_start(timeout_s);
 		int rc = body();
 		fflush(stdout);
 		_exit(rc);
